@@ -792,6 +792,8 @@ def move_before_loop(source: str) -> str:
                 continue
             if core.has_side_effect(node.value):
                 continue
+            if core.has_ignore_comment(source, core.get_charnos(node, source)):
+                continue
 
             # If targets are likely to be mutated in the loop, keep them in the loop.
             targets = tuple(name.id for name in parsing.assignment_targets(node))
